@@ -48,8 +48,14 @@ THEOREMS = [
     "PorepyVerif.C07.split_gives_equiv",
     "PorepyVerif.C07.expand_places",
     "PorepyVerif.C07.model_split_solves",
+    "PorepyVerif.C07.inverse_toM",
+    "PorepyVerif.C07.schurSolve_solves_full",
+    "PorepyVerif.C07.schurSolve_eq_full_solve",
+    "PorepyVerif.C07.assembleSplit_reduced",
+    "PorepyVerif.C07.model_schurSolve_solves_full",
 ]
 LEAN_MODULES = ["PorepyVerif.C07.Props"]
+LEAN_DIRS = ["C37"]  # Model imports C37.Model (Gauss-Jordan), Lemmas import C37.Lemmas (its correctness proof)
 AUDIT = "PorepyVerif/C07/Audit.lean"
 DRIVER = "PorepyVerif/C07/Driver.lean"
 N = {"quick": 50, "thorough": 800}
@@ -68,8 +74,9 @@ TRUSTED = [
     "modelled, not verified: evaluation of the AD operators (the Jacobian/residual given to the model are computed in closed form by the "
     "harness from the case's coefficients and compared exactly with EquationSystem.assemble() in every state), scipy sparse slicing / vstack / "
     "products, networkx connected components and the numba block inverter inside the default inverter (property C37), np.linalg.inv",
-    "the exact Gauss-Jordan elimination of the Lean driver is not verified but certified: every inverse and every solve is re-checked by an "
-    "exact matrix product before it is answered, and the driver reports J*X = r exactly for every expanded solution",
+    "nothing numerical is trusted on the model side any more: the driver computes with C37.inverse (exact Gauss-Jordan, proved in "
+    "C37/Lemmas to return a left inverse) and schurSolve_solves_full proves that every answer solves the full system; the driver does no "
+    "run-time re-check",
     "assembled_equation_indices after a Schur assembly is outside the property: the code overwrites the primary-block indices in its "
     "secondary loop (assemble(equations=[name]) resets the attribute); the comparison accepts the value as coded or the primary-block "
     "indices the comment in the code promises (fixes/C07-schur-assembled-equation-indices.diff)",
@@ -83,7 +90,13 @@ EXPLANATION = ("FULL (algebra) + CORE (bookkeeping, inverter): Mathlib-Matrix th
                "row/column bookkeeping transcribed from the code: primary rows + excluded primary rows + secondary equations are a permutation "
                "of all rows for EVERY layout and request, primary/secondary columns a permutation of all dofs for every duplicate-free variable "
                "list, such a split yields the bijections the algebra needs (split_gives_equiv; model_split_solves composes all of it), expand places "
-               "x_p and x_s at those indices. "
+               "x_p and x_s at those indices. The model's arithmetic is proved too: reading lists of rationals as Mathlib matrices, "
+               "whenever assembleSplit answers, the secondary block is invertible, the stored inverse is its Mathlib inverse and (S, rhs_S) is the "
+               "Schur complement system (assembleSplit_reduced); whenever schurSolve answers, J X = r (schurSolve_solves_full, "
+               "model_schurSolve_solves_full on the model's own row/column lists) and X = J^-1 r if J is invertible "
+               "(schurSolve_eq_full_solve) - no invertibility hypothesis and no run-time certificate. Equations registered with an "
+               "empty grid list are modelled (0 rows; a grid-restricted request for them raises ValueError in "
+               "_gridbased_equation_complement). "
                "Correspondence compares S, rhs, b_s, A_sp, column sets, assembled_equation_indices and expanded vectors of the real code with the "
                "model (exact where only slicing is involved, 1e-9 otherwise).")
 ASSUMPTIONS = [
@@ -155,7 +168,7 @@ def closed_form(case, lay, x):
             for c in range(s):
                 row = r0 + c
                 res = Fraction(e["const"][row - lay.eoff[k]])
-                for v, coef in [[e["diag"], e["dcoef"]]] + e["lin"]:
+                for v, coef in [[e["diag"], e["dcoef"]]] + e["lin"]:  # (not reached for an empty-grid equation)
                     j = lay.voff[(v, g)] + c
                     J[row][j] += Fraction(coef)
                     res += Fraction(coef) * x[j]
@@ -259,6 +272,13 @@ class World:
                 self.atom[(v["name"], next(g for g in grids if self.objs[g] is sv.domain))] = sv
         self.ops = []
         for k, e in enumerate(case["eqs"]):
+            if not e["grids"]:  # an equation registered with an empty grid list: an operator with zero rows
+                v, g = e["on"]
+                op = pp.ad.SparseArray(sps.csr_matrix((0, _cells(gs[g])))) @ self.atom[(v, g)]
+                op.set_name(f"e{k}")
+                es.set_equation(op, [], {"cells": 1})
+                self.ops.append(op)
+                continue
             grids = sorted(e["grids"], key=lambda g: pos[g])
             objs = [self.objs[g] for g in grids]
             nrows = sum(_cells(gs[g]) for g in grids)
@@ -508,6 +528,8 @@ def classify(case, lay, step):
         for k, grids, _ in step["eqs"]:
             if k >= neq or any(g not in case["eqs"][k]["grids"] for g in grids):
                 return ("ValueError",)
+            if not case["eqs"][k]["grids"]:
+                return ("ValueError",)  # np.hstack([]) in _gridbased_equation_complement
             requested.add(k)
             units |= {(k, g) for g in grids}
     prows = set()
@@ -760,6 +782,10 @@ def _gen_system(rng, tier):
                 nonlocal_.append([u["name"], g, M])
             eqs.append({"grids": G, "diag": v["name"], "dcoef": rng.choice(["4", "5", "6", "8", "-4", "-5", "-6", "3"]),
                         "lin": lin, "quad": quad, "nonlocal": nonlocal_, "const": [_dy(rng, -4, 4, 4) for _ in range(nrows)]})
+    if rng.random() < 0.2:
+        u = rng.choice(vars_)
+        eqs.append({"grids": [], "diag": None, "dcoef": "0", "lin": [], "quad": [], "nonlocal": [], "const": [],
+                    "on": [u["name"], rng.choice(u["grids"])]})
     rng.shuffle(eqs)
     return {"grids": grids, "vars": vars_, "eqs": eqs}
 
@@ -797,7 +823,7 @@ def _gen_split(rng, case):
     sty = lambda: rng.choice(["str", "str", "op"])
     inverter = rng.choice(["default", "default", "default", "dense", "exact"])
     base = "natural-list" if kind == "malformed" or (kind != "natural-dict" and rng.random() < 0.5) else "natural-dict"
-    if neq == 1:
+    if neq == 1 or (neq == 2 and any(not e["grids"] for e in eqs)):
         base = "natural-dict"
     if base == "natural-list":
         Q = rng.sample(range(neq), rng.randint(1, neq - 1))
@@ -818,12 +844,12 @@ def _gen_split(rng, case):
             elif t < 0.57:
                 chosen = []
             else:
-                chosen = rng.sample(G, rng.randint(1, len(G)))
+                chosen = rng.sample(G, rng.randint(1, len(G))) if G else []
             rng.shuffle(chosen)
             sel.append([k, chosen, sty()])
             picks.append((eqs[k]["diag"], chosen))
         if not sel or not any(p[1] for p in picks):
-            k = rng.randrange(neq)
+            k = rng.choice([k_ for k_ in range(neq) if eqs[k_]["grids"]])
             sel = [s for s in sel if s[0] != k] + [[k, [eqs[k]["grids"][0]], sty()]]
             picks = [(eqs[s_[0]]["diag"], s_[1]) for s_ in sel]
         rng.shuffle(sel)
